@@ -147,6 +147,8 @@ pub fn minimise_p(ctx: &Ctx, wd: &WorkerDir, job: &Job, p: &Perturb, inv: &str) 
     try_reset!(mmap_shift);
     try_reset!(sink_pipe);
     try_reset!(input_first);
+    try_reset!(src_mtime);
+    try_reset!(host);
     try_reset!(hash_seed);
     // individual environment variables
     let mut i = 0;
